@@ -59,12 +59,30 @@ def run_bulk(binary, out, shards):
     return total, sorted(bad), err
 
 
-def bulk_source(out, idx):
-    with open(os.path.join(out, 'bulk-sources.txt')) as f:
+def bulk_source(out, idx, shards):
+    """rebuild the workflow text of bulk case idx from its line (same layout as spec.yaml() of the harness)"""
+    shard, k = idx % shards, idx // shards
+    line = None
+    with open(os.path.join(out, 'bulk-%d.txt' % shard)) as f:
         for i, l in enumerate(f):
-            if i == idx:
-                return json.loads(l)
-    return None
+            if i == k:
+                line = l.split(' ')
+                break
+    if line is None:
+        return None
+    pos = 1
+    n = int(line[pos]); pos += 1
+    y = 'on: push\njobs:\n'
+    for _ in range(n):
+        jid = line[pos][1:]; k2 = int(line[pos + 3]); pos += 4
+        needs = []
+        for _ in range(k2):
+            needs.append(line[pos][1:]); pos += 3
+        y += '  %s:\n' % jid
+        if needs:
+            y += '    needs: [%s]\n' % ', '.join(json.dumps(x) for x in needs)
+        y += '    runs-on: x\n    steps:\n      - run: echo\n'
+    return y
 
 
 def run(ctx):
@@ -102,7 +120,7 @@ def run(ctx):
             ctx.broken.append('bulk correspondence evaluated %d of %d cases' % (nbulk, s['extra']['bulk_cases']))
         if bad_bulk:
             ctx.broken.append('correspondence C18 (extracted model vs RuleJobNeeds): %d of %d cases disagree' % (len(bad_bulk), nbulk))
-            ctx.first_disagreement = {'bulk_index': bad_bulk[0], 'workflow': bulk_source(ctx.out, bad_bulk[0])}
+            ctx.first_disagreement = {'bulk_index': bad_bulk[0], 'workflow': bulk_source(ctx.out, bad_bulk[0], shards)}
     # K, in Coq: vm_compute, all graphs on <= 3 jobs and a sample of the rest
     terms = vf.read_lines(os.path.join(ctx.out, 'cases.txt'))
     srcs = vf.read_lines(os.path.join(ctx.out, 'sources.jsonl'))
